@@ -164,5 +164,17 @@ Section Config.
   Inductive kindv := KindName (k : rfun) | KindBad.
   Definition kind_of (k : option kindv) : result rfun :=
     match k with None => Ok rS | Some (KindName r) => Ok r | Some KindBad => Err ValueError end.
+
+  (* -f/--filename NAME QMIN QMAX YOFFSET YSCALE QOFFSET TYPE  (io.py:96-106): the six values after the
+     file name, in the order they are typed, and the dataset description they become *)
+  Definition dinfo_of_flag (v : list A) (k : kindv) (x y : list A) (dy : option (list A)) : result (@dinfo A) :=
+    match v, kind_of (Some k) with
+    | [qmin; qmax; yoffset; yscale; xoffset], Ok kind =>
+        Ok {| d_x := x; d_y := y; d_dy := dy; d_qmin := Some qmin; d_qmax := Some qmax;
+              d_Y := Some {| o_scale := Some yscale; o_offset := Some yoffset |};
+              d_X := Some (Some xoffset); d_kind := kind |}
+    | _, Err e => Err e
+    | _, _ => Err ValueError
+    end.
 End Config.
 Arguments Ok {T}. Arguments Err {T}.
